@@ -288,7 +288,7 @@ CHECKS = {
               "cell with and without a decimal point, exact half-way cases, subnormal/overflow thresholds, shortest round-trip renderings of "
               "random doubles, literals of 20..2000 significant characters, random shapes - against Python's correctly rounded float()."),
         design_ref="DESIGN.md section 6, C05",
-        note=NOTE_COMMON + " Assumed: IEEE-754 single rounding of cvtsi2sd/mulsd/divsd, glibc strtod correctly rounded in the C locale. That the accumulated (mantissa, exponent) pair equals the literal's decimal value is tied by correspondence, not yet a theorem.",
+        note=NOTE_COMMON + " Assumed: IEEE-754 single rounding of cvtsi2sd/mulsd/divsd, glibc strtod correctly rounded in the C locale. The decimal value of a literal is defined by the model function decimalParts (a direct digit-by-digit reading of sign, digits, point and exponent); literal_correctly_rounded proves parse_double_from_buffer equals rne of that value for every float literal on both paths.",
         technique="Lean 4 proof (exact-arithmetic rounding, scale invariance, table check by decide +kernel) + correspondence check + float() oracle",
     ),
 }
